@@ -1107,7 +1107,7 @@ struct Ctx
             std::string what = lexp ? (x.kind == "value" || x.kind == "seed" ? "not-stored" : x.kind) : "not-atomic";
             key = "C15:loadSettingsFile:" + tl->pname + ":" + tl->cls + ":" + what;
          }
-         else if(special && special->kind == 2) key = "C15:loadSettingsFile:-:" + special->cls + ":accepted";     // a malformed line had an effect
+         else if(special && special->kind == 2 && (x.kind == "value" || x.kind == "seed")) key = "C15:loadSettingsFile:-:" + special->cls + ":accepted";     // a malformed line had an effect
          else key = "C15:loadSettingsFile:" + x.param + ":-:" + (x.kind == "lp" ? "lp-changed" : x.kind == "value" || x.kind == "seed" ? "side-effect" : x.kind);
          if(keys.insert(key).second) viol(key, x.detail, content);
       }
@@ -1185,7 +1185,7 @@ struct Ctx
          if(it == byName.end()) continue;
          expected++;
          // printed precision: scientific with 8 decimals (SPxOut::setScientific documents precision 8); the text must be the correct rounding
-         if(it->second->value != sci8(m.r[p]) && !(m.r[p] == 0 && it->second->value == sci8(0.0))) viol("C15:saveSettingsFile:" + T.rn[p] + ":" + oc + ":bad-precision", "written <" + it->second->value + "> for " + ds(m.r[p]) + ", expected <" + sci8(m.r[p]) + ">");
+         if(it->second->value != sci8(m.r[p]) && !(m.r[p] == 0 && (it->second->value == sci8(0.0) || it->second->value == sci8(-0.0)))) viol("C15:saveSettingsFile:" + T.rn[p] + ":" + oc + ":bad-precision", "written <" + it->second->value + "> for " + ds(m.r[p]) + ", expected <" + sci8(m.r[p]) + ">");
          std::string doc = "[" + sci8(T.rlo[p]) + "," + sci8(T.rhi[p]) + "], default " + sci8(T.rdef[p]);
          if(it->second->rangeLine != doc) viol("C15:saveSettingsFile:" + T.rn[p] + ":" + oc + ":wrong-doc", "documentation line <" + it->second->rangeLine + ">, table says <" + doc + ">");
          double back = strtod(sci8(m.r[p]).c_str(), nullptr);
